@@ -536,6 +536,39 @@ def rule_grad2(repo, tier):
 
 
 @guarded
+def rule_defcorr(repo, tier):
+    """GN and LM build their default corrector the same way: a kernel without an explicit corrector gets FastTriggs(kernel) per kernel (the step is then
+    the gradient step of the robust loss that is reported), no kernel gets Trivial.  The two constructors are siblings; their corrector set-up is
+    compared statement by statement after normalisation."""
+    res = RuleResult('C09.DEFCORR', 'GaussNewton.__init__ and LevenbergMarquardt.__init__ set up self.corrector identically; a kernel given without a '
+                     'corrector is wrapped in FastTriggs', floor=2)
+    forms = {}
+    for cname in ('GaussNewton', 'LevenbergMarquardt'):
+        f = repo.func(OPT, cname + '.__init__')
+        stmts = []
+        def collect(body):
+            for st in body:
+                if isinstance(st, ast.If):
+                    inner_before = len(stmts)
+                    collect(st.body); collect(st.orelse)
+                    if len(stmts) > inner_before:
+                        stmts.insert(inner_before, 'if ' + src(st.test).replace(' ', ''))
+                elif isinstance(st, ast.Assign) and any((dotted(t) or '') == 'self.corrector' for t in st.targets):
+                    stmts.append(src(st).replace(' ', ''))
+        collect(f.node.body)
+        forms[cname] = stmts
+        wraps = any('FastTriggs(' in x for x in stmts)
+        res.inst({'function': f.fq, 'corrector set-up': stmts, 'wraps a bare kernel in FastTriggs': wraps}, f.fq)
+        if not wraps:
+            res.add(Finding('C09.DEFCORR', f, '%s.__init__ no longer wraps a kernel given without a corrector in FastTriggs: the loss reported is the robust one, '
+                            'the step solved is the uncorrected J d = -R' % cname, construct='no FastTriggs default'))
+    if forms['GaussNewton'] != forms['LevenbergMarquardt'] and all(any('FastTriggs(' in x for x in v) for v in forms.values()):
+        res.add(Finding('C09.DEFCORR', repo.func(OPT, 'GaussNewton.__init__'), 'GN and LM set up their default corrector differently: %s vs %s'
+                        % (forms['GaussNewton'], forms['LevenbergMarquardt']), construct='siblings differ'))
+    return res
+
+
+@guarded
 def rule_xdef(repo, tier):
     """Both correctors evaluate the kernel at the SAME quantity, the squared norm of each residual block over the last (residual) dimension,
     x = R.square().sum(-1, keepdim=True), for every rank of R: the optimizer documents the last dimension as the residual dimension and the loss
@@ -770,7 +803,7 @@ def rule_sing(repo, tier):
 def _rules_core(repo, tier):
     return [rule_guard(repo, tier), rule_kind(repo, tier)] + rule_masks(repo, 'C09.MP', 'C09.GD', [(KER, 'Huber.forward')], floor=1) + \
         [rule_unit(repo, tier), rule_sel_axis(repo, tier), rule_contr(repo, tier), rule_sing(repo, tier), rule_grad2(repo, tier), rule_div(repo, tier),
-         rule_pure9(repo, tier), rule_xdef(repo, tier)]
+         rule_pure9(repo, tier), rule_xdef(repo, tier), rule_defcorr(repo, tier)]
 
 
 def rules(repo, tier):
